@@ -82,11 +82,11 @@ CF = 'contracts/c3dframe.c'
 RC = 'contracts/records.c'
 
 UNITS = [
-    U('Parameter_write_char1d', RC, 'h_Parameter_write_char1d', ['Parameter__write/contract_Parameter__write'],
+    U('B_Parameter_write_char1d', RC, 'h_Parameter_write_char1d', ['Parameter__write/contract_Parameter__write'],
       ['C03', 'C04', 'C12', 'C13', 'C14', 'C17', 'C10'],
-      replace=['vf_stream_write/contract_vf_stream_write', 'ezc3d__toUpper/contract_ezc3d__toUpper'], unwind=5, timeout=1800,
-      tier='thorough', sat='kissat', level='PB', object_bits=12,
-      bound='one-dimensional character parameter of declared width 2..255, name <= 127, description <= 255 (format capacity)'),
+      replace=['vf_stream_write/contract_vf_stream_write', 'ezc3d__toUpper/contract_ezc3d__toUpper'], unwind=6, timeout=2400,
+      tier='thorough', sat='kissat', level='B', object_bits=12,
+      bound='one-dimensional character parameter of declared width 2..4 (padding loop unwound), name <= 127, description <= 255'),
     U('Parameters_read', RD, 'h_Parameters_read', ['Parameters__ctor__c3d/contract_Parameters__ctor__c3d'],
       ['C02', 'C13', 'C16', 'C18'],
       replace=['c3d__readUint/contract_c3d__readUint', 'c3d__readInt/contract_c3d__readInt', 'Group__read/contract_any_Group__read',
